@@ -29,6 +29,9 @@ PERMISSIVE = {
     424: "P1 RLE block larger than Block_Maximum_Size: one-shot decoder bounds by capacity only",
     213: "P2 Huffman weight 12: libzstd accepts table log 12 (HUF_TABLELOG_MAX), the format text says 11",
     216: "P2 Huffman table log 12: libzstd accepts table log 12 (HUF_TABLELOG_MAX), the format text says 11",
+    220: "P3 Huffman literal stream without end mark: the 4-stream fast decoder (HUF_initFastDStream) tolerates a zero last byte",
+    221: "P3 Huffman literal stream exhausted early: the 4-stream fast decoder does not verify exact consumption",
+    222: "P3 Huffman literal stream not consumed exactly: the 4-stream fast decoder does not verify exact consumption",
 }
 
 
@@ -250,7 +253,8 @@ def make_cases(ctx, rng, cd, witnesses, gdict):
     # (2) the necessity witnesses first: the corpus
     for name, cls, site, b in witnesses:
         add("F", b, "witness:" + name, cap=4096)
-        add("F", b, "witness:" + name, cap=rng.choice([0, 1, 3, 1024, 1030]))
+        for cap in (7, 40, rng.choice([0, 1, 3, 12, 1024, 1030, 1031])):      # near-end-of-buffer code paths (execSequenceEnd, split literals)
+            add("F", b, "witness:" + name, cap=cap)
     # (1) mostly valid: real frames + structure-aware mutations
     nvalid = 46 if quick else 260
     clines, meta = [], {}
